@@ -286,6 +286,35 @@ class Check(Property):
                     continue
                 if isinstance(got, float) or got != want:
                     v.append(f"C03 Fraction registry, int magnitudes, {label} (n={n}): magnitude {got!r}, the other forms give exactly {want}")
+        # (3) the plain and reflected forms modify nothing: array operands (delta units, scaled units, mixed with scalars) read the
+        # same before and after, and the same expression evaluated twice gives the same result
+        r = regs.ureg("float")
+        pairs = [(("delta_degree_Fahrenheit", [9.0, 18.0, 27.0]), ("kelvin", 1.0)), (("kelvin", 1.0), ("delta_degree_Fahrenheit", [9.0, 18.0, 27.0])),
+                 (("delta_degree_Celsius / minute", [1.0, 2.0]), ("kelvin / second", 0.5)), (("delta_degree_Celsius", [1.0, 2.0]), ("millikelvin", 250.0)),
+                 (("centimeter", [150.0, 250.0]), ("meter", [1.0, 2.0])), (("meter", 2.0), ("inch", [10.0, 20.0])),
+                 (("kilometer / hour", [36.0, 72.0]), ("meter / second", 3.0)), (("gram", [1.0, 2.0]), ("pound", [1.0, 3.0]))]
+        for (ua, ma), (ub, mb) in pairs:
+            for name, op in (("+", operator.add), ("-", operator.sub), ("*", operator.mul), ("/", operator.truediv), ("//", operator.floordiv),
+                             ("%", operator.mod), ("<", operator.lt), ("==", operator.eq)):
+                a = r.Quantity(np.array(ma) if isinstance(ma, list) else ma, ua)
+                b = r.Quantity(np.array(mb) if isinstance(mb, list) else mb, ub)
+                snap = (np.array(a.magnitude, copy=True), str(a.units), np.array(b.magnitude, copy=True), str(b.units))
+                try:
+                    first = op(a, b)
+                except Exception:  # noqa: BLE001
+                    first = None
+                now = (np.asarray(a.magnitude), str(a.units), np.asarray(b.magnitude), str(b.units))
+                if not (np.array_equal(snap[0], now[0]) and snap[1] == now[1] and np.array_equal(snap[2], now[2]) and snap[3] == now[3]):
+                    v.append(f"C03 {ma} {ua} {name} {mb} {ub}: the plain form changed an operand: left now {a!r}, right now {b!r}")
+                    continue
+                if first is not None:
+                    try:
+                        second = op(a, b)
+                        fm, sm = (np.asarray(getattr(x, "magnitude", x), dtype=float) for x in (first, second))
+                        if not np.allclose(fm, sm, rtol=1e-12, atol=0, equal_nan=True):
+                            v.append(f"C03 {ma} {ua} {name} {mb} {ub}: evaluated twice gives {first!r} then {second!r}")
+                    except Exception:  # noqa: BLE001
+                        pass
         return v
 
     def oracle(self, c):
